@@ -93,7 +93,15 @@ def firewall_exit(signum, frame):
             sig = signal.CTRL_C_EVENT
         else:
             sig = signal.SIGINT
-        os.kill(sshuttle_pid, sig)
+        try:
+            os.kill(sshuttle_pid, sig)
+        except OSError as e:
+            # The main sshuttle process is already gone: there is nobody
+            # to relay the signal to. We must not let this exception
+            # escape into the main flow, which may be in the middle of
+            # undoing the firewall changes.
+            debug1("Could not relay the signal to sshuttle process %d: %s"
+                   % (sshuttle_pid, e))
 
 
 def _setup_daemon_for_unix_like():
